@@ -482,8 +482,23 @@ class ExprMixin:
         del st.guards[n0:]
         return Sc("bool", z3.And(*terms))
 
+    def e_Dict(self, node, st):
+        if node.keys:
+            raise VCError("non-empty dict literal at line %d" % node.lineno)
+        # key/value types are fixed at first use
+        return st.alloc(HDict(INT, "int", z3.K(INT, z3.BoolVal(False)), fresh("dv", z3.ArraySort(INT, INT)), zint(0), "?"))
+
     def key_term(self, st, o, kv, node):
         """z3 key term of sort o.ksort for python key value kv."""
+        if o.kdesc == "?":
+            if isinstance(kv, Tup) and len(kv.items) == 2:
+                o.kdesc, o.ksort = "pair", PAIR_SORT
+                o.dom = z3.K(PAIR_SORT, z3.BoolVal(False))
+                o.val = fresh("dv", z3.ArraySort(PAIR_SORT, SORTS[o.vkind]))
+            elif isinstance(kv, Sc):
+                o.kdesc = "int"
+            else:
+                o.kdesc = "str"
         if o.kdesc == "int":
             return to_int(kv)
         if o.kdesc == "pair":
